@@ -10,6 +10,7 @@ import (
 	"oss.terrastruct.com/d2/d2layouts/d2sequence"
 	"oss.terrastruct.com/d2/d2renderers/d2svg"
 	"oss.terrastruct.com/d2/d2target"
+	"oss.terrastruct.com/d2/lib/geo"
 	"pgregory.net/rapid"
 
 	"verif/harness/gen"
@@ -162,3 +163,5 @@ func compileOnly(text string) (*d2graph.Graph, *d2target.Config, error) {
 }
 
 var _ = fmt.Sprint
+
+type geoPoint = geo.Point
